@@ -341,6 +341,29 @@ func genC11Hub(t *rapid.T) Scenario {
 	}
 	sc.Ops = append(sc.Ops, HubOp{K: "wait", WaitMs: 1000})
 	sc.SlowLog = genSlowLog(t, sc.N)
+	if rapid.IntRange(0, 3).Draw(t, "lateLoser") == 0 {
+		// both hubs of a pair dial at the same moment (a double connection), and the logger is slow at the
+		// points where the connection that is not kept is closed or where a connection completes: the end
+		// of the replaced connection and the set-up of the kept one come in either order
+		sc.Ops = nil
+		for _, p := range [][2]int{{0, 1}, {1, 0}, {1, 2}, {2, 1}} {
+			sc.Ops = append(sc.Ops, HubOp{K: "register", X: p[0], Y: p[1]}, HubOp{K: "appear", X: p[0], Y: p[1]})
+		}
+		sc.Ops = append(sc.Ops, HubOp{K: "wait", WaitMs: rapid.SampledFrom([]int{200, 900, 1800}).Draw(t, "llw0")})
+		for i, n := 0, rapid.IntRange(0, 3).Draw(t, "llOps"); i < n; i++ {
+			x := rapid.IntRange(0, 2).Draw(t, "llx")
+			y := (x + 1 + rapid.IntRange(0, 1).Draw(t, "lldy")) % 3
+			sc.Ops = append(sc.Ops, HubOp{K: rapid.SampledFrom([]string{"cut", "cancel", "unregister", "disconnect", "disappear", "wait"}).Draw(t, "llop"), X: x, Y: y,
+				WaitMs: rapid.SampledFrom([]int{0, 30, 250, 700, 1500}).Draw(t, "llwait")})
+		}
+		sc.Ops = append(sc.Ops, HubOp{K: "wait", WaitMs: 1000})
+		sc.SlowLog = nil
+		for i, n := 0, rapid.IntRange(1, 2).Draw(t, "llRules"); i < n; i++ {
+			sc.SlowLog = append(sc.SlowLog, LogRule{
+				Match: rapid.SampledFrom([]string{"SHIP state changed to: 39", "SHIP state changed to: 38", "incoming connection request from", "closing existing double connection"}).Draw(t, "llPoint"),
+				Ski:   rapid.IntRange(-1, sc.N-1).Draw(t, "llSki"), Ms: rapid.SampledFrom([]int{150, 400, 900}).Draw(t, "llMs")})
+		}
+	}
 	return sc
 }
 
